@@ -457,8 +457,52 @@ def _order_in(rr, dr, cname):
 
 
 # --------------------------------------------------------------------------------------- RS5
-@rule("RS5", ["C05"], "soft guard stack balanced; else arm guarded by Not(cond)", engine="SAI", floor=2)
+def _guard_kind(prog, cls, e, cond, depth=1, env=None):
+    """polarity of a guard expression over `cond`: 'cond' (holds when cond is true), 'not-cond', or 'other:<text>'"""
+    env = env or {}
+
+    def const(x):
+        if isinstance(x, ast.Constant):
+            return x.value
+        if isinstance(x, ast.Name) and x.id in env:
+            return env[x.id]
+        return None
+
+    def is_cond(x):
+        return norm(x) == cond or (isinstance(x, ast.Name) and env.get(x.id) == "<cond>")
+    if is_cond(e):
+        return "cond"
+    if isinstance(e, ast.Call):
+        fn = (dotted(e.func) or "").split(".")[-1]
+        if fn == "ExprUnaryModel" and len(e.args) == 2 and norm(e.args[0]).endswith("UnaryExprType.Not") and is_cond(e.args[1]):
+            return "not-cond"
+        if fn == "ExprBinModel" and len(e.args) == 3 and is_cond(e.args[0]):
+            op = e.args[1]
+            if isinstance(op, ast.IfExp) and const(op.test) is not None:
+                op = op.body if const(op.test) else op.orelse
+            lit = e.args[2]
+            zero = isinstance(lit, ast.Call) and (dotted(lit.func) or "").endswith("ExprLiteralModel") and lit.args and norm(lit.args[0]) == "0"
+            if zero and norm(op) == "BinExprType.Ne":
+                return "cond"
+            if zero and norm(op) == "BinExprType.Eq":
+                return "not-cond"
+        if depth and fn in cls.methods and not e.keywords:
+            g = cls.methods[fn]
+            params = [a for a in g.params if a not in ("self", "cls")]
+            if len(params) == len(e.args):
+                env2 = {}
+                for pn, a in zip(params, e.args):
+                    env2[pn] = "<cond>" if is_cond(a) else const(a)
+                rets = [r for r in walk_local(g.node) if isinstance(r, ast.Return) and r.value is not None]
+                kinds = {_guard_kind(prog, cls, r.value, cond, depth - 1, env2) for r in rets}
+                if len(kinds) == 1:
+                    return kinds.pop()
+    return "other:" + norm(e)
+
+
+@rule("RS5", ["C05"], "soft guard stack balanced; true arm guarded by the condition, else arm by its negation", engine="SAI", floor=2)
 def rs5(prog, rr):
+    rib = prog.cls("RandInfoBuilder")
     for h in ("visit_constraint_if_else", "visit_constraint_implies"):
         f = prog.method("RandInfoBuilder", h)
         p = f.params[1]
@@ -471,7 +515,7 @@ def rs5(prog, rr):
                 nm, rv = call_name(call), recv_text(call)
                 d, top = st.u
                 if rv == "self._soft_cond_l" and nm == "append":
-                    top = "cond" if norm(call.args[0]) == p + ".cond" else "other:" + norm(call.args[0])
+                    top = _guard_kind(prog, rib, call.args[0], p + ".cond")
                     return [(FALL, st._replace(u=(d + 1, top)), None)]
                 if rv == "self._soft_cond_l" and nm == "pop":
                     return [(FALL, st._replace(u=(d - 1, "none")), None)]
@@ -488,10 +532,7 @@ def rs5(prog, rr):
 
             def on_assign(s, st, stmt):
                 if isinstance(stmt, ast.Assign) and any(norm(t) == "self._soft_cond_l[-1]" for t in stmt.targets):
-                    v = stmt.value
-                    isnot = isinstance(v, ast.Call) and (dotted(v.func) or "").endswith("ExprUnaryModel") and len(v.args) == 2 \
-                        and norm(v.args[0]).endswith("UnaryExprType.Not") and norm(v.args[1]) == p + ".cond"
-                    return st._replace(u=(st.u[0], "not-cond" if isnot else "other:" + norm(v)))
+                    return st._replace(u=(st.u[0], _guard_kind(prog, rib, stmt.value, p + ".cond")))
                 return st
         outs = Interp(D(), func=f).run(f.node)
         rr.inst("RandInfoBuilder.%s: %d exits" % (h, len(outs.fall | outs.ret)))
